@@ -16,7 +16,7 @@ PROPS = {
     "C01": dict(
         title="A DAG call returns exactly what the plain Python function would return",
         core=["REF-DEREF", "REF-KEY", "REF-FIELDS", "REF-ASDICT"],
-        aux=["REF-MAT", "REF-SHAPE", "REF-OPS", "REF-NI", "SCH-ARMS", "OWN-ARGS", "REF-GETITEM", "REF-RESERVED", "REF-TRACE", "VAL-ARGCOUNT", "OWN-STRICT", "REF-SEED", "REF-PREFIX", "REF-ACTIVE-BUILD", "REF-RESULTTRY", "REF-FUNCOPY", "REF-UNWRAP", "REF-KWNAME", "REF-FUNTRANSIENT", "SCH-ACTIVE", "REF-CALLID", "VAL-SENTINEL", "REF-SPLICEALL", "REF-ARGORDER", "VAL-STORED", "OWN-CONSUME", "REF-WRAPDICT"],
+        aux=["REF-MAT", "REF-SHAPE", "REF-OPS", "REF-NI", "SCH-ARMS", "OWN-ARGS", "REF-GETITEM", "REF-RESERVED", "REF-TRACE", "VAL-ARGCOUNT", "OWN-STRICT", "REF-SEED", "REF-PREFIX", "REF-ACTIVE-BUILD", "REF-RESULTTRY", "REF-FUNCOPY", "REF-UNWRAP", "REF-KWNAME", "REF-FUNTRANSIENT", "SCH-ACTIVE", "REF-CALLID", "VAL-SENTINEL", "REF-SPLICEALL", "REF-ARGORDER", "VAL-STORED", "OWN-CONSUME", "REF-WRAPDICT", "SCH-TASKDONE", "REF-REBUILDALL"],
         explanation="Necessary structural conditions of value equivalence, re-derived from source on every run: every reference "
                     "(node id + key path) is dereferenced only through the accessor; key paths survive every re-identification; "
                     "every reference field is handled at every reference-handling site and restored after dataclasses.asdict; "
@@ -28,7 +28,7 @@ PROPS = {
     "C02": dict(
         title="No node starts before all of its dependencies have finished",
         core=["SCH-ORIGIN", "SCH-RSET", "SCH-DONE", "SCH-PRUNE", "REF-FIELDS"],
-        aux=["SCH-ROOTS", "REF-DEREF", "REF-MAT", "ERR-CHECK", "SCH-TASKDONE", "REF-SEED", "SCH-BIDICT", "REF-RESULTTRY", "REF-KWNAME", "REF-NONEKEY", "REF-ARGORDER", "ERR-WRAP", "REF-KEY"],
+        aux=["SCH-ROOTS", "REF-DEREF", "REF-MAT", "ERR-CHECK", "SCH-TASKDONE", "REF-SEED", "SCH-BIDICT", "REF-RESULTTRY", "REF-KWNAME", "REF-NONEKEY", "REF-ARGORDER", "ERR-WRAP", "REF-KEY", "OWN-CONSUME", "GT-SELECT"],
         explanation="Inductive argument over all loop paths of the scheduler: INV 'every id in the runnable set has in-degree 0 in "
                     "the remaining graph, which holds exactly the unfinished selected nodes' is established by the prune and "
                     "preserved by every event class (selection, removal, dispatch, wait, release of successors); a dispatch only "
@@ -39,7 +39,7 @@ PROPS = {
     "C03": dict(
         title="Each selected active node runs exactly once per execution, nothing else runs",
         core=["SCH-ONCE", "SCH-ORIGIN", "SCH-PRUNE", "SCH-DONE"],
-        aux=["OWN-STRICT", "OWN-FORCE", "REF-UNIQ", "GT-CYCLE", "GT-GATE", "GT-CARRY", "REF-KEY", "SCH-DEACT", "GT-POP", "GT-ALIAS", "OWN-LIVERESULTS", "REF-WRAPDICT", "REF-FUNCOPY", "REF-UNWRAP", "OWN-WRITEBACK", "SCH-ACTIVE", "GT-GATEEXACT", "REF-CALLID", "GT-EXECSETUP", "GT-PRESENCE"],
+        aux=["OWN-STRICT", "OWN-FORCE", "REF-UNIQ", "GT-CYCLE", "GT-GATE", "GT-CARRY", "REF-KEY", "SCH-DEACT", "GT-POP", "GT-ALIAS", "OWN-LIVERESULTS", "REF-WRAPDICT", "REF-FUNCOPY", "REF-UNWRAP", "OWN-WRITEBACK", "SCH-ACTIVE", "GT-GATEEXACT", "REF-CALLID", "GT-EXECSETUP", "GT-PRESENCE", "GT-DEBUGINC", "REF-ACTIVE-BUILD"],
         explanation="Exactly-once event pattern on every loop path: the selected id leaves the runnable set exactly once on every "
                     "path that dispatches or deactivates it and never otherwise; at most one dispatch per iteration; pre-computed "
                     "ids pruned before the runnable set is formed; results map write-once; per-call-site ids.",
@@ -49,7 +49,7 @@ PROPS = {
     "C04": dict(
         title="At most max_concurrency pooled nodes in flight; resources decide the thread",
         core=["SCH-BOUND", "SCH-COUNT"],
-        aux=["SCH-ARMS", "VAL-MAXC", "SIB-FWD-SCHED", "SCH-POOLSIZE", "VAL-CONF", "SCH-TASKDONE", "SCH-ONLYDISPATCH", "VAL-POSTINIT", "ERR-NOSWALLOW", "SIB-OVERLOAD", "SCH-OWNTHREAD", "SCH-POOLOWN", "VAL-CONFKEYS", "OWN-COMPOSE", "SIB-CTORARGS"],
+        aux=["SCH-ARMS", "VAL-MAXC", "SIB-FWD-SCHED", "SCH-POOLSIZE", "VAL-CONF", "SCH-TASKDONE", "SCH-ONLYDISPATCH", "VAL-POSTINIT", "ERR-NOSWALLOW", "SIB-OVERLOAD", "SCH-OWNTHREAD", "SCH-POOLOWN", "VAL-CONFKEYS", "OWN-COMPOSE", "SIB-CTORARGS", "REF-WRAPDICT"],
         explanation="On every path reaching a pooled dispatch either a live guard literal implies in-flight < max or every in-flight "
                     "set was waited on since the last submission; the count covers every set that receives futures; sets shrink "
                     "only through waits; resource -> dispatch-kind mapping exhaustive and correct; max_concurrency >= 1 validated "
@@ -60,7 +60,7 @@ PROPS = {
     "C05": dict(
         title="A sequential node never overlaps any other node of its execution",
         core=["SCH-SEQ-PRE", "SCH-SEQ-POST"],
-        aux=["SCH-COUNT", "SCH-ARMS", "VAL-CONF", "VAL-EXPAND", "SCH-ONLYDISPATCH", "VAL-POSTINIT", "REF-UNWRAP", "REF-WRAPDICT", "VAL-SYNTHSEQ", "SIB-OVERLOAD", "OWN-RUN"],
+        aux=["SCH-COUNT", "SCH-ARMS", "VAL-CONF", "VAL-EXPAND", "SCH-ONLYDISPATCH", "VAL-POSTINIT", "REF-UNWRAP", "REF-WRAPDICT", "VAL-SYNTHSEQ", "SIB-OVERLOAD", "OWN-RUN", "GT-ALIAS"],
         explanation="Pre-guard fact 'not sequential or nothing in flight' is live at every dispatch of every loop path; after a "
                     "pooled dispatch of a possibly sequential node its in-flight set is drained before the loop head.",
         not_decided="nothing structural; wait primitives trusted",
@@ -91,7 +91,7 @@ PROPS = {
     "C08": dict(
         title="The scheduler never idles while a ready node and a free slot both exist",
         core=["SCH-WAITSITES", "SCH-WAITMODE"],
-        aux=["SCH-GUARD", "SCH-MIXWAIT", "SCH-POOLSIZE", "SIB-FWD-SCHED", "SCH-TASKDONE", "SCH-ARMS", "VAL-SYNTHSEQ", "SCH-EAGER", "SCH-STALEPICK", "VAL-CONF", "VAL-POSTINIT", "REF-UNWRAP", "REF-WRAPDICT", "GT-FORMULA", "SIB-OVERLOAD", "SCH-POOLOWN", "VAL-CONFKEYS", "SIB-CTORARGS"],
+        aux=["SCH-GUARD", "SCH-MIXWAIT", "SCH-POOLSIZE", "SIB-FWD-SCHED", "SCH-TASKDONE", "SCH-ARMS", "VAL-SYNTHSEQ", "SCH-EAGER", "SCH-STALEPICK", "VAL-CONF", "VAL-POSTINIT", "REF-UNWRAP", "REF-WRAPDICT", "GT-FORMULA", "SIB-OVERLOAD", "SCH-POOLOWN", "VAL-CONFKEYS", "SIB-CTORARGS", "LCK-RUNFREE"],
         explanation="Every blocking wait site of the loop is under exactly one of three licences (full or nothing runnable; "
                     "sequential candidate with something in flight; sequential node just dispatched); the first two wait "
                     "FIRST_COMPLETED; the pool has max_concurrency workers. SCH-MIXWAIT reports the exception the property names.",
@@ -101,7 +101,7 @@ PROPS = {
     "C09": dict(
         title="Every execution terminates, whatever order nodes finish in",
         core=["SCH-PROGRESS", "SCH-EXIT", "SCH-RSET"],
-        aux=["SCH-EMPTYWAIT", "SCH-DEACT", "GT-CYCLE", "ERR-CHECK", "SCH-COUNT", "GT-DEBUGINC", "SCH-DONE", "GT-NORECURSE", "SCH-ACTIVE", "REF-NONEKEY", "LCK-PRED"],
+        aux=["SCH-EMPTYWAIT", "SCH-DEACT", "GT-CYCLE", "ERR-CHECK", "SCH-COUNT", "GT-DEBUGINC", "SCH-DONE", "GT-NORECURSE", "SCH-ACTIVE", "REF-NONEKEY", "LCK-PRED", "LCK-RUNFREE", "OWN-SETUP"],
         explanation="Ranking argument (|graph|, |runnable|) per loop path: every feasible path shrinks the graph, moves a node "
                     "from runnable to in flight, or passes a wait that provably blocks on a non-empty set; no exit but 'graph "
                     "empty'; released roots are never dropped; cycles rejected at construction.",
@@ -111,7 +111,7 @@ PROPS = {
     "C10": dict(
         title="twz_active runs a node iff the supplied value is truthy; otherwise None",
         core=["REF-DEREF", "SCH-DEACT", "REF-FIELDS"],
-        aux=["SCH-ACTIVE", "REF-FLAGPRED", "REF-KEY", "REF-ASDICT", "REF-ACTIVE-BUILD", "REF-GETITEM", "REF-REWIRE", "REF-NONEKEY", "REF-SEEDACT", "REF-SETUPOUT", "REF-CALLID", "OWN-ARGS"],
+        aux=["SCH-ACTIVE", "REF-FLAGPRED", "REF-KEY", "REF-ASDICT", "REF-ACTIVE-BUILD", "REF-GETITEM", "REF-REWIRE", "REF-NONEKEY", "REF-SEEDACT", "REF-SETUPOUT", "REF-CALLID", "OWN-ARGS", "REF-SEED", "REF-MAT"],
         explanation="The flag is decided by the truthiness of the reference dereferenced through the accessor (key path applied); "
                     "deactivated arm = no dispatch + graph removal + release of successors; the flag is a dependency edge; the "
                     "nested-DAG flag is attached to stubs and inner nodes under one presence predicate.",
@@ -121,7 +121,7 @@ PROPS = {
     "C11": dict(
         title="A setup node runs at most once per DAG instance and its value is reused",
         core=["OWN-WRITEBACK", "OWN-SETUP", "SCH-PRUNE"],
-        aux=["OWN-DEEPCOPY", "VAL-SETUPDEP", "VAL-SETUPARG", "SIB-DAG", "SIB-FWD", "GT-PRESENCE", "OWN-SCHEDCOPY", "VAL-GENREUSE", "GT-ALIASNORM", "GT-DEFAULTSEL", "OWN-LIVERESULTS", "REF-WRAPDICT", "OWN-NODEEPVAL", "GT-GATEEXACT", "VAL-EMPTYFOLD", "GT-EXECSETUP", "VAL-DEBUGDEP", "REF-FIELDS", "OWN-ARGS"],
+        aux=["OWN-DEEPCOPY", "VAL-SETUPDEP", "VAL-SETUPARG", "SIB-DAG", "SIB-FWD", "GT-PRESENCE", "OWN-SCHEDCOPY", "VAL-GENREUSE", "GT-ALIASNORM", "GT-DEFAULTSEL", "OWN-LIVERESULTS", "REF-WRAPDICT", "OWN-NODEEPVAL", "GT-GATEEXACT", "VAL-EMPTYFOLD", "GT-EXECSETUP", "VAL-DEBUGDEP", "REF-FIELDS", "OWN-ARGS", "GT-POP", "REF-REBUILDALL"],
         explanation="Who-may-write: the only element write into a DAG's results on a run path is the guarded setup write-back and "
                     "the only re-binding is setup() on a setup-only graph; pruning by membership precedes scheduling; build-time "
                     "refusals present; selection forwarded.",
@@ -141,7 +141,7 @@ PROPS = {
     "C13": dict(
         title="Debug nodes run only when enabled and never influence production results",
         core=["GT-GATE", "GT-CARRY"],
-        aux=["VAL-DEBUGDEP", "SIB-DAG", "VAL-DEBUGSETUP", "GT-DEBUGINC", "REF-WRAPDICT", "GT-STALEGATE", "GT-GATEEXACT"],
+        aux=["VAL-DEBUGDEP", "SIB-DAG", "VAL-DEBUGSETUP", "GT-DEBUGINC", "REF-WRAPDICT", "GT-STALEGATE", "GT-GATEEXACT", "REF-REBUILDALL", "GT-ALIASNORM"],
         explanation="Every graph reaching the scheduler passed the debug gate or the setup-only filter; the gate subtracts using a "
                     "table that actually carries the markers (typestate); flag-on inclusion requires all predecessors selected; "
                     "build-time refusal of non-debug depending on debug.",
@@ -151,7 +151,7 @@ PROPS = {
     "C14": dict(
         title="A failing node fails the call, names itself, and starts nothing downstream",
         core=["ERR-WRAP", "ERR-CHECK", "ERR-NOSWALLOW"],
-        aux=["SCH-DONE", "SCH-EXIT", "ERR-CTX", "SCH-BIDICT", "ERR-FAILSTOP", "REF-NONEKEY", "ERR-LOGFMT", "ERR-FRAME", "REF-RESULTTRY", "SCH-POOLSIZE", "ERR-LOCFRESH", "SCH-GUARD", "SIB-WAIT"],
+        aux=["SCH-DONE", "SCH-EXIT", "ERR-CTX", "SCH-BIDICT", "ERR-FAILSTOP", "REF-NONEKEY", "ERR-LOGFMT", "ERR-FRAME", "REF-RESULTTRY", "SCH-POOLSIZE", "ERR-LOCFRESH", "SCH-GUARD", "SIB-WAIT", "VAL-CONF", "SCH-TASKDONE", "REF-REBUILDALL"],
         explanation="The node call is wrapped with id + call location 'from e'; every newly done future is checked before the "
                     "wait helper returns and before the node is removed from the graph; no handler between the check and the API "
                     "boundary; context managers around the node call do not suppress.",
@@ -170,7 +170,7 @@ PROPS = {
     "C16": dict(
         title="Tawazi is thread-safe: concurrent runs and builds do not interfere",
         core=["LCK-SET", "LCK-PRED", "OWN-RUN", "OWN-GLOBAL"],
-        aux=["LCK-RESET", "OWN-CONSUME", "LCK-PAIR", "LCK-GLOBALS", "LCK-REBIND", "OWN-GRAPHFROZEN"],
+        aux=["LCK-RESET", "OWN-CONSUME", "LCK-PAIR", "LCK-GLOBALS", "LCK-REBIND", "OWN-GRAPHFROZEN", "LCK-RUNFREE"],
         explanation="Lockset: build state is touched only under the build lock or behind a thread-exclusive description predicate; "
                     "the predicate's owner identity is written only inside the locked region; run paths touch no module-level "
                     "mutable state.",
@@ -180,7 +180,7 @@ PROPS = {
     "C17": dict(
         title="AsyncDAG equals DAG, concurrent awaits are isolated, the loop stays free",
         core=["SIB-DAG", "SIB-EXEC", "SIB-DRIVE"],
-        aux=["SIB-WAIT", "SIB-BLOCK", "OWN-RUN", "SCH-ARMS", "SCH-TASKDONE", "OWN-WRITEBACK", "GT-GATE", "OWN-EXECFLAG", "SCH-OWNTHREAD", "SIB-CTORARGS"],
+        aux=["SIB-WAIT", "SIB-BLOCK", "OWN-RUN", "SCH-ARMS", "SCH-TASKDONE", "OWN-WRITEBACK", "GT-GATE", "OWN-EXECFLAG", "SCH-OWNTHREAD", "SIB-CTORARGS", "LCK-RUNFREE"],
         explanation="Sibling agreement: DAG/AsyncDAG (and executor, wait-helper) pairs have equal effect summaries; the sync "
                     "flavour drives the same coroutine with all four arguments; no blocking primitive reachable in the coroutine "
                     "while async futures may be in flight (reports the known exception).",
@@ -210,7 +210,7 @@ PROPS = {
     "C20": dict(
         title="Calling a DAG inside a DAG is equivalent to inlining it",
         core=["REF-PREFIX", "REF-ASDICT", "REF-KEY", "REF-SEED"],
-        aux=["LCK-PAIR", "REF-SHAPE", "REF-UNIQ", "REF-FLAGPRED", "REF-GETITEM", "REF-TRACE", "SIB-CTOR", "REF-STABLEID", "REF-SAMENODE", "REF-STUBEXEC", "REF-FUNCOPY", "REF-KWNAME", "VAL-SENTINEL", "REF-SPLICEALL", "REF-ARGORDER", "VAL-STORED", "REF-CALLID"],
+        aux=["LCK-PAIR", "REF-SHAPE", "REF-UNIQ", "REF-FLAGPRED", "REF-GETITEM", "REF-TRACE", "SIB-CTOR", "REF-STABLEID", "REF-SAMENODE", "REF-STUBEXEC", "REF-FUNCOPY", "REF-KWNAME", "VAL-SENTINEL", "REF-SPLICEALL", "REF-ARGORDER", "VAL-STORED", "REF-CALLID", "REF-REBUILDALL"],
         explanation="Every inner id reaching an outer table passes the prefixer exactly once; stub ids are not seeded with "
                     "defaults; asdict restoration of every reference field; return-shape agreement; prefix push/pop paired; "
                     "registration ids call-site unique (reports the known collision).",
